@@ -206,3 +206,24 @@ def make_object(S, seq, rng, rep, allow_backend=True):
     rep.cnt("objects_around_backend_lowercase")
     mixed = "".join(c.lower() if rng.random() < 0.6 else c for c in seq)
     return S["SP"](SeqObj=S["Sequence"](mixed))
+
+
+def default_shuffles_move_everything(S, rep, facet, context=""):
+    """A shuffle with nothing frozen may move every position.  On a chain of 20 different residues each position keeps its
+    residue in one shuffle with probability 1/20; that it does so in 12 shuffles in a row has probability 20 * 20**-12 < 1e-14.
+    Positions that never move are frozen by something nobody passed (state left in a default argument, a class attribute)."""
+    seq = "ACDEFGHIKLMNPQRSTVWY"
+    still = set(range(20))
+    o = S["SP"](seq)
+    for _ in range(12):
+        c = o.get_shuffled_sequence().get_sequence()
+        if sorted(c) != sorted(seq):
+            rep.viol(facet, "default shuffle of %s returned %s%s" % (seq, c, context), sig={"kind": "not_rearrangement"})
+            return False
+        still = {i for i in still if c[i] == seq[i]}
+    rep.cnt("default_shuffle_mobility_checks")
+    if still:
+        rep.viol(facet, "positions %r of a fresh %s never moved in 12 shuffles with nothing frozen%s" % (sorted(still), seq, context),
+                 sig={"kind": "immobile_positions"})
+        return False
+    return True
